@@ -21,6 +21,11 @@ Operators (one site per variant):
   rettemp    return E         ->  sv_ret = E ; return sv_ret
   negidx     x[-k]            ->  x[len(x) - k]        (x a plain name, loads only)
   npdiff     np.diff(x)       ->  x[1:] - x[:-1]       (one argument, x a plain name)
+  assertmsg  assert c, msg    ->  assert c
+  dellog     a `LOG.x(...)` / `del name` statement removed
+  swapstmts  a = E1 ; b = E2  ->  b = E2 ; a = E1      (adjacent, no calls, no shared names)
+  extractp   any call-free sub-expression of a simple statement -> temporary before it
+  sqlalias   one table alias of an SQL statement renamed throughout the statement
   sqllower   SQL keywords of one statement in lower case
   sqlws      one SQL statement re-wrapped (whitespace collapsed)
   sqlmirror  `a.x = b.y` inside SQL -> `b.y = a.x`
@@ -139,6 +144,32 @@ def sites(tree, modname, aliases, sig):
             out.append(("pass", i))
         if isinstance(n, ast.BinOp) and isinstance(n.op, (ast.BitAnd, ast.BitOr)) and _pure(n):
             out.append(("bitcomm", i))
+        if isinstance(n, ast.Assert) and n.msg is not None:
+            out.append(("assertmsg", i))
+        if isinstance(n, ast.Delete) or (isinstance(n, ast.Expr) and isinstance(n.value, ast.Call) and isinstance(n.value.func, ast.Attribute)
+                                         and isinstance(n.value.func.value, ast.Name) and n.value.func.value.id == "LOG"):
+            out.append(("dellog", i))
+        if isinstance(n, ast.Assign) and len(n.targets) == 1 and isinstance(n.targets[0], ast.Name) and _pure(n.value):
+            p_ = getattr(n, "_p", None)
+            for fld in ("body", "orelse"):
+                b = getattr(p_, fld, None)
+                if isinstance(b, list) and n in b and b.index(n) + 1 < len(b):
+                    m_ = b[b.index(n) + 1]
+                    if isinstance(m_, ast.Assign) and len(m_.targets) == 1 and isinstance(m_.targets[0], ast.Name) and _pure(m_.value):
+                        na = {x.id for x in ast.walk(n) if isinstance(x, ast.Name)}
+                        nb = {x.id for x in ast.walk(m_) if isinstance(x, ast.Name)}
+                        if n.targets[0].id not in nb and m_.targets[0].id not in na:
+                            out.append(("swapstmts", i))
+        if isinstance(n, ast.expr) and not isinstance(n, (ast.Name, ast.Constant, ast.Starred, ast.Slice, ast.Tuple, ast.List)) and isinstance(getattr(n, "ctx", ast.Load()), ast.Load) \
+                and _pure(n) and not _in_scope_expr(n) and not isinstance(getattr(n, "_p", None), (ast.stmt, ast.keyword, ast.Slice, ast.comprehension, ast.FormattedValue, ast.JoinedStr)):
+            st_ = n
+            while st_ is not None and not isinstance(st_, ast.stmt):
+                st_ = getattr(st_, "_p", None)
+            if isinstance(st_, (ast.Assign, ast.Expr, ast.Return)) and not isinstance(getattr(st_, "_p", None), (ast.Module, ast.ClassDef)):
+                # only the value side, and nothing evaluated before it may be a call
+                inside_value = any(x is n for x in ast.walk(st_.value)) if st_.value is not None else False
+                if inside_value and not isinstance(n, ast.Attribute):
+                    out.append(("extractp", i))
         if isinstance(n, ast.Assign) and len(n.targets) == 1 and isinstance(n.targets[0], ast.Tuple) and isinstance(n.value, ast.Tuple) \
                 and len(n.targets[0].elts) == len(n.value.elts) and all(isinstance(t, ast.Name) for t in n.targets[0].elts):
             tn = [t.id for t in n.targets[0].elts]
@@ -158,6 +189,8 @@ def sites(tree, modname, aliases, sig):
             out.append(("npdiff", i))
         if isinstance(n, ast.Constant) and isinstance(n.value, str) and re.search(r"\b(SELECT|INSERT|UPDATE|DELETE|CREATE)\b", n.value):
             out.append(("sqllower", i))
+            for k_, m_ in enumerate(re.finditer(r"\bAS\s+([a-z_][a-z0-9_]*)\b", n.value)):
+                out.append(("sqlalias:%d" % k_, i))
             out.append(("sqlws", i))
             for k_, m_ in enumerate(SQLEQ.finditer(n.value)):
                 out.append(("sqlmirror:%d" % k_, i))
@@ -219,6 +252,67 @@ def transform(src, site, modname, aliases, sig):
             return None, None
     elif kind == "bitcomm":
         n.left, n.right = n.right, n.left
+    elif kind == "assertmsg":
+        n.msg = None
+    elif kind == "dellog":
+        p = n._p
+        done = False
+        for fld in ("body", "orelse", "finalbody"):
+            b = getattr(p, fld, None)
+            if isinstance(b, list) and n in b:
+                if len(b) == 1:
+                    b[0] = ast.Pass()
+                else:
+                    b.remove(n)
+                done = True
+                break
+        if not done:
+            return None, None
+    elif kind == "swapstmts":
+        p = n._p
+        done = False
+        for fld in ("body", "orelse"):
+            b = getattr(p, fld, None)
+            if isinstance(b, list) and n in b:
+                k = b.index(n)
+                b[k], b[k + 1] = b[k + 1], b[k]
+                done = True
+                break
+        if not done:
+            return None, None
+    elif kind == "extractp":
+        st_ = n
+        while not isinstance(st_, ast.stmt):
+            st_ = st_._p
+        # everything evaluated before n in the statement must be call-free: approximate by requiring that
+        # no Call node *precedes* n in source order within the statement's value unless it contains n
+        for c in ast.walk(st_.value):
+            if isinstance(c, ast.Call) and not any(x is n for x in ast.walk(c)) and (c.lineno, c.col_offset) < (n.lineno, n.col_offset):
+                return None, None
+        tmp = "sv_p_%d_%d" % (n.lineno, n.col_offset)
+        pre = ast.Assign(targets=[ast.Name(id=tmp, ctx=ast.Store())], value=n)
+        if not _replace(st_, n, ast.Name(id=tmp, ctx=ast.Load())):
+            return None, None
+        p = st_._p
+        done = False
+        for fld in ("body", "orelse", "finalbody"):
+            b = getattr(p, fld, None)
+            if isinstance(b, list) and st_ in b:
+                b.insert(b.index(st_), pre)
+                done = True
+                break
+        if not done:
+            return None, None
+    elif kind.startswith("sqlalias:"):
+        k_ = int(kind.split(":")[1])
+        ms = list(re.finditer(r"\bAS\s+([a-z_][a-z0-9_]*)\b", n.value))
+        if k_ >= len(ms):
+            return None, None
+        al = ms[k_].group(1)
+        # an alias that is also a column / table / output name is left alone
+        if re.search(r"\.%s\b" % al, n.value) or len(al) > 4:
+            return None, None
+        n.value = re.sub(r"(?<![\w.:])%s(?![\w])" % al, al + "_r", n.value)
     elif kind == "split":
         p = n._p
         news = [ast.Assign(targets=[t], value=v) for t, v in zip(n.targets[0].elts, n.value.elts)]
